@@ -74,6 +74,12 @@ def creds(w):
         'password-extended': b('%s:%sx' % (w.user, w.password)),
         'user-uppercase': b('%s:%s' % (w.user.upper(), w.password)),
         'user-trailing-space': b('%s :%s' % (w.user, w.password)),
+        # near misses of the user name with the right password
+        'user-prefix': b('%s:%s' % (w.user[:-1], w.password)),
+        'user-suffix': b('%s:%s' % (w.user[1:], w.password)),
+        'user-first-char': b('%s:%s' % (w.user[:1], w.password)),
+        'user-empty': b(':%s' % w.password),
+        'user-extended': b('%sx:%s' % (w.user, w.password)),
     }
 
 
@@ -197,6 +203,8 @@ def run_shard(sh):
         as4peer = rng.random() < 0.7
         la = rng.choice([65001, 65001, 65010, 4200000000])
         cfg = dict(local_as=la, remote_as=la if ibgp else rng.choice([65002, 65009, 64512, 4200000001]))
+        if rng.random() < 0.4:
+            cfg['bgp_opts'] = {'rib': True}          # the Adj-RIB-Out is kept: a refused request must not reach it either
         w = World(**cfg)
         caps = [(1, struct.pack('!HBB', 1, 0, 1)), (1, struct.pack('!HBB', 2, 0, 1)), (2, b'')] + ([(65, struct.pack('!I', cfg['remote_as']))] if as4peer else []) + \
             ([(128, b'')] if rng.random() < 0.3 else [])
@@ -204,8 +212,10 @@ def run_shard(sh):
         if w.state_direct() != 'ESTABLISHED':
             continue
         asn4 = bool(w.fsm.protocol.fourbytesas)
-        kind = rng.choice(['update', 'update', 'update', 'mp', 'mixed', 'withdraw', 'rr', 'bin', 'bad'])
+        kind = rng.choice(['update', 'update', 'update', 'mp', 'mixed', 'withdraw', 'rr', 'bin', 'bad', 'refused'])
         n0 = len(tr.written)
+        fp0 = full_fp(w)
+        jb = None
         others0 = sum(len(t.written) for t in w.transports() if t is not tr)
         rep = dict(kind_of_send=kind, ibgp=ibgp, as4peer=as4peer)
         res['evaluations'] += 1
@@ -303,6 +313,19 @@ def run_shard(sh):
             res['counters']['sends_compared'] += 1
             if not (isinstance(jb, dict) and jb.get('status') is True and new == [payload]):
                 bad('send-not-faithful', ['send:bin_update', 'human:%s' % human], 'bin_update of %s answered %s; wire has %s' % (hx[:80], str(jb)[:100], [d.hex()[:80] for d in new]), rep)
+        elif kind == 'refused':
+            # well-formed JSON the agent cannot or will not send: prefixes without attributes, an attribute value it cannot encode,
+            # an empty request - the answer is a failure and nothing may have happened
+            post = rng.choice([{'nlri': gen.prefix_list4(rng, 3) or ['192.0.2.0/24']}, {'attr': {}, 'nlri': ['192.0.2.0/24']},
+                               {'attr': {'1': 0, '2': [], '3': 'not-an-address'}, 'nlri': ['192.0.2.0/24']}, {},
+                               {'attr': {'1': 0, '2': [], '3': '10.0.0.1', '8': ['NO-SUCH-COMMUNITY']}, 'nlri': ['192.0.2.0/24']},
+                               {'attr': {'1': 0, '2': [], '3': '10.0.0.1'}, 'nlri': ['300.1.2.0/24']}])
+            rep['post'] = post
+            code, jb = w.rest('POST', 'send/update', json_body=post)
+            new = [d for _, d in tr.written[n0:]]
+            res['counters']['refused_requests'] = res['counters'].get('refused_requests', 0) + 1
+            if isinstance(jb, dict) and jb.get('status') is True and not new:
+                bad('success-without-send', ['send:update'], 'send/update of %s answered status true but nothing was written' % json.dumps(post)[:200], rep)
         else:
             # malformed requests must not write anything
             post = rng.choice([{'binary_data': 'abc'}, {'binary_data': ''}, {'binary_data': 'zz'}, {'binary_data': 12}])
@@ -310,6 +333,12 @@ def run_shard(sh):
             new = [d for _, d in tr.written[n0:]]
             if new or (isinstance(jb, dict) and jb.get('status') is True):
                 bad('failed-send-wrote', ['send:bin_update-malformed'], 'malformed bin_update %s answered %s and wrote %d frames' % (post, str(jb)[:100], len(new)), rep)
+        if not (isinstance(jb, dict) and jb.get('status') is True):
+            fp1 = full_fp(w)
+            if fp1 != fp0:
+                diff = [i_ for i_, (a_, b_) in enumerate(zip(fp0, fp1)) if a_ != b_]
+                bad('refused-request-changed-state', ['kind:' + kind], 'a %s request answered %s, yet the world changed (fingerprint parts %s: %s -> %s)' % (
+                    kind, str(jb)[:100], diff, str([fp0[i_] for i_ in diff])[:300], str([fp1[i_] for i_ in diff])[:300]), rep)
         if sum(len(t.written) for t in w.transports() if t is not tr) != others0:
             bad('send-wrote-elsewhere', [], 'a send wrote to a connection other than the current one', rep)
     res['violations'] = list(V.values())
